@@ -81,7 +81,7 @@ class Ctx:
 
     # ---------------------------------------------------------------- builds
     def build_lib(self, variant):
-        rc, out = sh([os.path.join(VERIF, "tools", "build.sh"), variant], timeout=3000)
+        rc, out = sh([os.path.join(VERIF, "tools", "build.sh"), variant], timeout=9000)
         if rc != 0:
             raise Broken("library build failed (%s):\n%s" % (variant, out[-4000:]))
         return out.strip().splitlines()[-1]
